@@ -598,6 +598,7 @@ struct FuncEmitter {
     J.attribute("defaulted", FD->isDefaulted());
     J.attribute("deleted", FD->isDeleted());
     J.attribute("variadic", FD->isVariadic());
+    J.attribute("internal", !FD->isExternallyVisible());
     if (auto *FPT = FD->getType()->getAs<FunctionProtoType>()) {
       ExceptionSpecificationType EST = FPT->getExceptionSpecType();
       if (!isUnresolvedExceptionSpec(EST))
